@@ -255,8 +255,8 @@ fn stage_stream(i: &Input, c: &mut Case) -> Result<(), String> {
 pub const STAGES: &[Stage] = &[Stage { name: "header", f: stage_header }, Stage { name: "stream", f: stage_stream }];
 
 pub fn run(rc: &mut RunCtx) {
-    rc.run_pt(STAGES[0], rc.pick(20_000, 600_000), (96, 300));
-    rc.run_pt(STAGES[1], rc.pick(20_000, 600_000), (96, 500));
+    rc.run_pt(STAGES[0], rc.pick(80_000, 1_500_000), (96, 300));
+    rc.run_pt(STAGES[1], rc.pick(80_000, 1_500_000), (96, 500));
     for l in ["above_limit_wide_field", "within_limit_payload_missing", "limit_untouched", "inside_known_with_room", "inside_unknown"] {
         rc.require_label("header", l, 20_000);
     }
